@@ -368,3 +368,38 @@ func itoa(i int) string {
 	}
 	return itoa(i/10) + string(rune('0'+i%10))
 }
+
+// IsFirstNDistinct reports whether rows are exactly all copies of the first n DISTINCT rows of the
+// input sorted by the keys and then by all values ascending — the symptom of a LIMIT that counts
+// distinct rows instead of rows (used only to attribute that finding precisely).
+func IsFirstNDistinct(rows [][]octosql.Value, in Rel, keyCols []int, dirs []int, n int) bool {
+	sorted := make([]Counted, 0, len(in))
+	for _, c := range in {
+		if c.N > 0 {
+			sorted = append(sorted, c)
+		}
+	}
+	sort.SliceStable(sorted, func(i, j int) bool {
+		if c := CmpKeys(sorted[i].Values, sorted[j].Values, keyCols, dirs); c != 0 {
+			return c < 0
+		}
+		for k := range sorted[i].Values {
+			if c := CmpVal(sorted[i].Values[k], sorted[j].Values[k]); c != 0 {
+				return c < 0
+			}
+		}
+		return false
+	})
+	want := nodeh.Multiset{}
+	for i, c := range sorted {
+		if i >= n {
+			break
+		}
+		want.Add(nodeh.RowKey(c.Values), c.N)
+	}
+	got := nodeh.Multiset{}
+	for _, r := range rows {
+		got.Add(nodeh.RowKey(r), 1)
+	}
+	return got.Equal(want)
+}
